@@ -165,7 +165,39 @@ func runC09(c *core.Ctx) {
 			}
 		}
 	}
+	// MnemonicToSeed must refuse every invalid sentence: every position x all 2048 words on valid sentences of 12, 36 and
+	// 48 words (long sentences carry more than 11 checksum bits, part of them in the second-to-last word)
 	bip39.SetWordList("english")
+	if words := c03ReadList(c, "english"); words != nil {
+		for _, wc := range []int{12, 36, 48} {
+			ent := make([]byte, wc*4/3)
+			for i := range ent {
+				ent[i] = byte(i*23 + wc)
+			}
+			base := rb39.Indices(ent)
+			var accepted atomic.Int64
+			core.Par(wc, func(pos int) {
+				idx := append([]int{}, base...)
+				m := make(bip39.Mnemonic, wc)
+				for w := 0; w < 2048; w++ {
+					idx[pos] = w
+					for i, v := range idx {
+						m[i] = words[v]
+					}
+					_, _, valid := rb39.FromIndices(idx)
+					if valid {
+						continue // valid sentences are covered above (PBKDF2 is slow)
+					}
+					seed, err := bip39.MnemonicToSeed(m, "")
+					c.Eval(1)
+					if err == nil || seed != nil {
+						accepted.Add(1)
+						c.Violate(fmt.Sprintf("C09/seed/invalid-mnemonic/%d-words", wc), fmt.Sprintf("MnemonicToSeed accepted a %d-word sentence with a wrong checksum (word %d replaced): %q", wc, pos, m.String()), m.String(), "", nil)
+					}
+				}
+			})
+		}
+	}
 	c.Sample(map[string]interface{}{"sentence": sents[0].words.String(), "passphrase": "e\\u0301 + U+212B"})
 
 	// ---- parser ----
